@@ -44,11 +44,11 @@ def spdata(gasname, user_eb, user_y, pre):
     return {"A": float(A), "charge": q, "eb": eb, "yield": user_y.get(ice, 0.0)}
 
 
-def reactions_for(path, model, variant):
+def reactions_for(path, model, variant, tier="quick"):
     """-> list of dict(process, species (gas names), alpha, payload)   payload: line or API args"""
     pre = "G" if path == "leeds" else "#"
     R = []
-    gasses = ["H", "H2", "CO", "H2O", "CH3OH"]
+    gasses = ["H", "H2", "CO", "H2O", "CH3OH"] + (["O", "OH", "HCO", "CO2"] if tier != "quick" else [])
     al = [1.0, 0.5]
 
     def add(process, gas, alpha, r, p, code, marker=None, beta=0.0):
@@ -69,6 +69,13 @@ def reactions_for(path, model, variant):
             add("surface", ["H2", "O"], a, [pre + "H2", pre + "O"], [pre + "H2O"], 13)
             add("reactive", ["H", "O"], a, [pre + "H", pre + "O"], ["OH"], 14)
             add("reactive", ["O", "OH"], a, [pre + "O", pre + "OH"], ["H2O"], 14)
+            if tier != "quick":
+                add("surface", ["O", "H"], a, [pre + "O", pre + "H"], [pre + "OH"], 13)
+                add("surface", ["O", "H2"], a, [pre + "O", pre + "H2"], [pre + "H2O"], 13)
+                add("surface", ["H2", "H2"], a, [pre + "H2", pre + "H2"], [pre + "H2", pre + "H2"], 13)
+                add("surface", ["OH", "CO"], a, [pre + "OH", pre + "CO"], [pre + "CO2", pre + "H"], 13)
+                add("reactive", ["OH", "H"], a, [pre + "OH", pre + "H"], ["H2O"], 14)
+                add("reactive", ["CO", "H"], a, [pre + "CO", pre + "H"], ["HCO"], 14)
         if variant.get("grainspec"):
             add("recombination", ["HCO+"], 1.0, ["HCO+", "GRAIN-"], ["HCO", "GRAIN0"], 6)
             add("recombination", ["H3O+"], 0.5, ["H3O+", "GRAIN-"], ["H2O", "H", "GRAIN0"], 6)
@@ -98,6 +105,11 @@ def reactions_for(path, model, variant):
             add("surface", ["H", "CO"], a, [pre + "H", pre + "CO"], [pre + "HCO"], codes["surface"])
             add("surface", ["CO", "O"], a, [pre + "CO", pre + "O"], [pre + "CO2"], codes["surface"])
             add("reactive", ["H", "O"], a, [pre + "H", pre + "O"], ["OH"], codes["reactive"])
+            if tier != "quick":
+                add("surface", ["CO", "H"], a, [pre + "CO", pre + "H"], [pre + "HCO"], codes["surface"])
+                add("surface", ["O", "H2"], a, [pre + "O", pre + "H2"], [pre + "H2O"], codes["surface"])
+                add("surface", ["H", "H"], a, [pre + "H", pre + "H"], [pre + "H2"], codes["surface"])
+                add("reactive", ["O", "H"], a, [pre + "O", pre + "H"], ["OH"], codes["reactive"])
         if variant.get("grainspec"):
             add("recombination", ["HCO+"], 1.0, ["HCO+", "GRAIN-"], ["HCO", "GRAIN0"], codes["recombination"])
             add("ecapture", [], 1.0, ["e-", "GRAIN0"], ["GRAIN-"], codes["ecapture"])
@@ -116,7 +128,7 @@ TEMPS = [(10.0, 12.0), (25.0, 40.0)]  # (Tgas, Tdust)
 
 
 def run_combo(arg):
-    path, model, variant = arg
+    path, model, variant, tier = arg
     from ..harness.render import render, reset_globals, scratch, quiet
     from ..harness import ratesrun as RR
     from ..ctext.stmts import read_macros
@@ -143,7 +155,10 @@ def run_combo(arg):
             raise HarnessError(f"own RATE12 excerpt disagrees with the data file for {k}: {v} vs {table.get(k)}")
     if NO_EB in table:
         raise HarnessError(f"{NO_EB} unexpectedly has a RATE12 entry")
-    descs = reactions_for(path, model, variant)
+    descs = reactions_for(path, model, variant, tier)
+    temps = TEMPS if tier == "quick" else TEMPS + [(8.0, 8.0), (15.0, 9.0), (100.0, 50.0)]
+    if path == "uclchem":
+        temps = [t for t in temps if t[0] < 30.0]  # UCLCHEM switches freeze-out off above 30 K (window judged by C06)
     tmp = Path(tempfile.mkdtemp(dir=scratch()))
     nval = 0
     try:
@@ -218,7 +233,7 @@ def run_combo(arg):
         ice_slots = [s for a, s in names.items() if a.startswith("G") and not a.startswith("GRAIN")]
         grain_slots = [s for a, s in names.items() if a.startswith("GRAIN")]
         grid, yvals, plist = [], [], []
-        for (tg, td) in TEMPS:
+        for (tg, td) in temps:
             for icezero in (False, True):
                 yv = [1e-6 * (i + 3) for i in range(neq)]
                 if icezero:
@@ -328,7 +343,7 @@ def run(ctx):
     nval = 0
     refused_by_path = {}
     with mp.get_context("fork").Pool(ctx.workers, maxtasksperchild=1) as pool:
-        for label, n, viols, rbp in pool.imap_unordered(run_combo, work):
+        for label, n, viols, rbp in pool.imap_unordered(run_combo, [w + (ctx.tier,) for w in work]):
             nval += n
             for r in rbp:
                 refused_by_path[f"{label.split('|')[0]}|{label.split('|')[1]}|{r}"] = refused_by_path.get(f"{label.split('|')[0]}|{label.split('|')[1]}|{r}", 0) + 1
@@ -358,5 +373,5 @@ def replay(ctx, case):
         _, v = run_missing_eb(case["missing_eb"])
         ctx.absorb(v)
         return
-    label, n, viols, _ = run_combo((case["path"], case["model"], case["variant"]))
+    label, n, viols, _ = run_combo((case["path"], case["model"], case["variant"], "thorough"))
     ctx.absorb(viols)
